@@ -13,6 +13,7 @@ META = {
     'not_decided': 'exactly-once resumption over repeated rendezvous under every interleaving',
     'assumptions': ['one waiter and one signaler per rendezvous (documented protocol)'],
 }
+META['explanation'] += ' The push targets the run queue of the executing worker (origin of the env, not only the field; C08.2).'
 NATIVE = 'myth_if_native.c'
 TH = 'myth_uncond_t.th'
 
